@@ -157,3 +157,90 @@ Proof.
   - intros a b x [E|[]]; inversion E; subst; cbn; intuition discriminate.
   - repeat constructor.
 Qed.
+
+(** * how many hydrogens each atom gets *)
+Definition step_edges (st : hx_state) (h : N) : list (N * N * iedge) :=
+  match assoc h (st_nodes st) with
+  | None => []
+  | Some b =>
+      if hx_count b <=? 0 then []
+      else map (fun n' => (h, n', IE 2 2 0)) (map (fun i => (st_max st + N.of_nat i)%N) (seq 1 (Z.to_nat (hx_count b))))
+  end.
+
+Lemma hx_step_edges st h : st_edges (hx_step st h) = st_edges st ++ step_edges st h.
+Proof.
+  destruct st as [[ns es] mx]. unfold step_edges, st_edges, st_nodes, st_max, hx_step. cbn [fst snd].
+  destruct (assoc h ns) as [b|]; [|cbn [fst snd]; rewrite app_nil_r; reflexivity].
+  destruct (hx_count b <=? 0); cbn [fst snd]; [rewrite app_nil_r|]; reflexivity.
+Qed.
+
+Lemma filter_all_true {X} (p : X -> bool) (l : list X) : (forall x, In x l -> p x = true) -> filter p l = l.
+Proof.
+  induction l as [|a l IH]; intros H; [reflexivity|]. cbn [filter]. rewrite (H a (or_introl eq_refl)). f_equal.
+  apply IH. intros x Hx. apply H. right. exact Hx.
+Qed.
+
+Definition from (n : N) (e : N * N * iedge) : bool := N.eqb (fst (fst e)) n.
+
+Lemma step_edges_from st h n a : assoc n (st_nodes st) = Some a ->
+  length (filter (from n) (step_edges st h)) = if N.eqb n h then Z.to_nat (Z.max 0 (hx_count a)) else 0%nat.
+Proof.
+  intros L. unfold step_edges. destruct (N.eqb_spec n h) as [->|Hne].
+  - rewrite L. destruct (Z.leb_spec (hx_count a) 0) as [Hc|Hc].
+    + rewrite Z.max_l by lia. reflexivity.
+    + rewrite Z.max_r by lia. rewrite filter_all_true.
+      * rewrite !map_length, seq_length. reflexivity.
+      * intros e Ie. apply in_map_iff in Ie. destruct Ie as (n' & <- & _). unfold from. cbn [fst]. apply N.eqb_refl.
+  - destruct (assoc h (st_nodes st)) as [b|]; [|reflexivity]. destruct (hx_count b <=? 0); [reflexivity|].
+    induction (map (fun i => (st_max st + N.of_nat i)%N) (seq 1 (Z.to_nat (hx_count b)))) as [|x l IH]; [reflexivity|].
+    cbn [map filter]. unfold from at 1. cbn [fst]. destruct (N.eqb_spec h n); [congruence|exact IH].
+Qed.
+
+Lemma hx_fold_count l : NoDup l -> forall st n a, assoc n (st_nodes st) = Some a ->
+  exists ne, st_edges (fold_left hx_step l st) = st_edges st ++ ne /\
+             length (filter (from n) ne) = if mem n l then Z.to_nat (Z.max 0 (hx_count a)) else 0%nat.
+Proof.
+  induction l as [|h r IH]; intros Hn st n a L.
+  - exists []. cbn [fold_left]. rewrite app_nil_r. split; reflexivity.
+  - inversion Hn as [|? ? Hh Hr]; subst. cbn [fold_left].
+    destruct (IH Hr (hx_step st h) n _ (hx_step_assoc st h n a L)) as (ne & E & C).
+    exists (step_edges st h ++ ne). split; [rewrite E, hx_step_edges, app_assoc; reflexivity|].
+    rewrite filter_app, app_length, (step_edges_from st h n a L), C. cbn [mem existsb]. fold (mem n r).
+    destruct (N.eqb_spec n h) as [->|Hne]; cbn [orb].
+    + destruct (mem h r) eqn:M; [apply mem_spec in M; contradiction|]. lia.
+    + destruct (mem n r); reflexivity.
+Qed.
+
+(** C01_h_to_explicit_count: every original atom gets exactly as many hydrogen atoms as leave its hcount and both
+    halves of its typesGH, so its hydrogen total is unchanged on both sides *)
+Theorem h_to_explicit_count (I : its) : wf I -> forall n a, label I n = Some a ->
+  let J := fst (h_to_explicit_its I) in
+  let c := Z.max 0 (hx_count a) in
+  exists ne, gedges J = gedges I ++ ne /\
+    length (filter (fun e : N * N * iedge => N.eqb (fst (fst e)) n) ne) = Z.to_nat c /\
+    (forall b, label J n = Some b ->
+       a_hc (i_G b) + c = a_hc (i_G a) /\ a_hc (i_H b) + c = a_hc (i_H a) /\ top_hc b + c = top_hc a).
+Proof.
+  intros W n a L J c. subst J.
+  destruct (h_to_explicit_its_spec I W) as (HL & _).
+  destruct (HL n a L) as [_ LJ].
+  unfold h_to_explicit_its in *.
+  set (st0 := (gnodes I, gedges I, fold_left N.max (node_ids I) 0%N) : hx_state) in *.
+  destruct (hx_fold_count (node_ids I) (proj1 W) st0 n a L) as (ne & E & C).
+  destruct (fold_left hx_step (node_ids I) st0) as [[ns es] mx] eqn:Efold.
+  unfold st_edges in E. cbn [fst snd] in *. exists ne. split; [exact E|]. split.
+  - assert (mem n (node_ids I) = true) as M by (apply mem_spec; eapply label_some_node; eauto).
+    rewrite M in C. exact C.
+  - intros b Lb. rewrite LJ in Lb. inversion Lb; subst b. clear Lb. subst c. unfold hx_upd.
+    destruct (Z.leb_spec (hx_count a) 0) as [Hc|Hc].
+    + rewrite Z.max_l by lia. repeat split; lia.
+    + rewrite Z.max_r by lia. unfold hx_dec, top_hc. cbn [i_G i_H i_extra set_hc_n a_hc].
+      repeat split; try lia. destruct (i_extra a) as [[[ar hc] nb]|] eqn:Ex; [lia|].
+      exfalso. unfold hx_count, top_hc in Hc. rewrite Ex in Hc. lia.
+Qed.
+
+Example C01_h_to_explicit_count_nonvacuous :
+  option_map hx_count (label ex_eh 1%N) = Some 3 /\ option_map hx_count (label ex_eh 2%N) = Some 1 /\
+  length (filter (from 1%N) (skipn 1 (gedges (fst (h_to_explicit_its ex_eh))))) = 3%nat /\
+  length (filter (from 2%N) (skipn 1 (gedges (fst (h_to_explicit_its ex_eh))))) = 1%nat.
+Proof. repeat split. Qed.
